@@ -108,12 +108,12 @@ End DFS.
 
 (* ------------------------------------------------------------------ *)
 (* the chunk graph: loading an entry chunk evaluates every statically imported chunk first *)
-Lemma chunk_eval_respects_imports_lemma g r ci : split g = Some r -> deps_cover g ->
+Lemma chunk_eval_respects_imports_lemma g r ci : split g = Some r ->
   (ci < length (a_chunks (r_analysis r)))%nat ->
   let out := chunk_eval_order r ci in
   In ci out /\ forall A B, In A out -> sedge (r_cross r) A B -> In B out /\ before B A out.
 Proof.
-  intros H HD Hci. pose proof (static_chunk_graph_acyclic_all _ _ H HD) as AC.
+  intros H Hci. pose proof (deps_cover_holds g) as HD. pose proof (static_chunk_graph_acyclic_all _ _ H) as AC.
   pose proof (split_inv _ _ H) as [A X]. pose proof (cross_chunk_length _ _ _ X) as L.
   unfold chunk_eval_order.
   apply (postorder_respects (static_succ (r_cross r)) (length (r_cross r))).
@@ -126,15 +126,15 @@ Lemma static_succ_imports xs A : static_succ xs A = map i_chunk (static_imports 
 Proof. reflexivity. Qed.
 
 (* a symbol used by the code of chunk A and declared in another chunk B: B is evaluated before A *)
-Theorem binding_chunk_evaluated_first_all g r ci A B s : split g = Some r -> deps_cover g ->
+Theorem binding_chunk_evaluated_first_all g r ci A B s : split g = Some r ->
   let a := r_analysis r in
   (ci < length (a_chunks a))%nat -> In A (chunk_eval_order r ci) ->
   (A < length (a_chunks a))%nat ->
   In s (chunk_uses g (nth A (a_chunks a) dchunk)) -> chunk_of_sym g a s = Some B -> B <> A ->
   In B (chunk_eval_order r ci) /\ before B A (chunk_eval_order r ci).
 Proof.
-  intros H HD a Hci HA HAl Hs Hc Hne.
-  destruct (chunk_eval_respects_imports_lemma g r ci H HD Hci) as [_ R].
+  intros H a Hci HA HAl Hs Hc Hne.
+  destruct (chunk_eval_respects_imports_lemma g r ci H Hci) as [_ R].
   apply (R A B HA).
   destruct (cross_chunk_imports_exact_all g r A H HAl) as [Ex _].
   destruct (Ex s Hs) as [N|[N|[oi [im [al [E1 [E2 [E3 [E4 [E5 _]]]]]]]]]]; fold a in N || idtac.
@@ -155,7 +155,7 @@ Proof.
 Qed.
 
 (* ... and so is every file of B before every file of A *)
-Theorem binding_file_evaluated_first_all g r ci A B s f f' : split g = Some r -> deps_cover g ->
+Theorem binding_file_evaluated_first_all g r ci A B s f f' : split g = Some r ->
   let a := r_analysis r in
   (ci < length (a_chunks a))%nat -> In A (chunk_eval_order r ci) ->
   (A < length (a_chunks a))%nat ->
@@ -163,8 +163,8 @@ Theorem binding_file_evaluated_first_all g r ci A B s f f' : split g = Some r ->
   In f (nth B (r_orders r) []) -> In f' (nth A (r_orders r) []) ->
   before f f' (split_order r ci).
 Proof.
-  intros H HD a Hci HA HAl Hs Hc Hne Hf Hf'.
-  destruct (binding_chunk_evaluated_first_all g r ci A B s H HD Hci HA HAl Hs Hc Hne) as [_ Bf].
+  intros H a Hci HA HAl Hs Hc Hne Hf Hf'.
+  destruct (binding_chunk_evaluated_first_all g r ci A B s H Hci HA HAl Hs Hc Hne) as [_ Bf].
   unfold split_order. eapply before_flat_map; eauto.
 Qed.
 
@@ -194,12 +194,12 @@ Definition order_witness_result : result :=
   end.
 
 Theorem chunk_order_respects_evaluation_refuted_all :
-  exists g r ci bit e f1 f2, split g = Some r /\ deps_cover g /\
+  exists g r ci bit e f1 f2, split g = Some r /\
     nth_error (map c_entry (a_chunks (r_analysis r))) ci = Some (Some (bit, e)) /\
     beforeb f1 f2 (native_order g e) = true /\ beforeb f2 f1 (split_order r ci) = true.
 Proof.
   exists order_witness, order_witness_result, 0%nat, 0%nat, 1%nat, 3%nat, 4%nat.
-  split; [vm_compute; reflexivity|]. split; [apply deps_coverb_sound; vm_compute; reflexivity|].
+  split; [vm_compute; reflexivity|].
   split; [vm_compute; reflexivity|]. split; vm_compute; reflexivity.
 Qed.
 
